@@ -12,7 +12,7 @@ import ast
 
 from ..engine import rule
 from ..model import Undecided
-from ..cfg import same, same_args, dotted, call_name, is_call, simple_name, unparse, const_value, contains, enclosing, implied
+from ..cfg import cexpr, same, same_args, dotted, call_name, is_call, simple_name, unparse, const_value, contains, enclosing, implied
 from ..flow import Canon, Defs, depends
 from ..decide import table, ret_kind, expr_table
 from ..util import keyword, returns_of, calls_in, inside, order_key, arg_of
@@ -471,13 +471,15 @@ def c10e(ctx):
         bad = []
         if ok:
             for asg, out, events in tab.assignments():
+                # the flag as it stands when the branch is left (it starts as False)
+                flag = events[-1] if events else 'flag=False'
                 if asg[a_c[0]]:
-                    want = ('go', ())
+                    want = ('go', 'flag=False')
                 elif asg[a_i[0]]:
-                    want = ('go', ('flag=True',))
+                    want = ('go', 'flag=True')
                 else:
-                    want = ('empty', ())
-                if (out, events) != want:
+                    want = ('empty', flag)          # nothing is served: the flag is not read any more
+                if (out, flag) != want:
                     bad.append((asg, out, events))
         ctx.check(ok and not bad, 'TileLayer.%s:limit-table' % m,
                   'contained -> render; only intersecting -> mask flag; disjoint -> empty response', fn,
@@ -497,7 +499,17 @@ def c10e(ctx):
         ctx.check(ok, 'TileLayer.%s:unmasked-only-without-flag' % m, 'the unmasked response is returned only when the flag is not set', fn)
         init = [v for v, sel in defs.of('coverage_intersects')]
         tb = [v for v, sel in defs.of('tile_bbox')]
-        ok = all(is_call(v, 'self.grid.tile_bbox') and same(v.args[0], 'tile_coord') for v in tb) and bool(tb)
+
+        def served_bbox(v):
+            for depth in (0, 1, 2, 3):       # the value itself, or the local it was first held in
+                c = fn.canon.expr(v, depth=depth) if depth else v
+                if is_call(c, 'self.grid.tile_bbox') and c.args and unparse(c.args[0]) == 'tile_coord':
+                    return True
+            # a placeholder (`tile_bbox = None` when there is no limit) that cannot reach the mask
+            st = enclosing(v, ast.Assign)
+            n = g.node_of.get(id(st)) if st is not None else None
+            return isinstance(v, ast.Constant) and n is not None and bool(masks) and all(mn not in g.reachable_ps(n) for mn, _ in masks)
+        ok = all(served_bbox(v) for v in tb) and bool(tb)
         ctx.check(ok, 'TileLayer.%s:bbox-of-served-tile' % m, 'the limit is compared with the bbox of the internal coordinate that is served', fn)
 
 
